@@ -36,7 +36,7 @@ static inline void c8_args_push(vargs* r, char c)
 #define ARG_QUOTE_NEXT(c, q) (ARG_CLOSES(c, q) ? 0 : ARG_OPENS(c, q) ? (c) : (q))
 
 #define ARGS_SNAPSHOT(s, z, q, sp) \
-  g_z0 = (z); g_c = (s)->data[z]; g_havenext = (z) + 1 < (s)->size; g_c2 = g_havenext ? (s)->data[(z) + 1] : 0; g_q0 = (q); g_sp0 = (sp); \
+  g_z0 = (z); g_c = (s)->data[z]; g_havenext = (z) + 1 < (s)->size; g_c2 = g_havenext ? (s)->data[(z) + 1] : 0; g_q0 = (q); g_sp0 = (sp) ? 1 : 0; \
   g_nnew = 0; g_npush = 0; g_xerr = ARG_ESCAPES(g_c, g_q0) && !g_havenext;
 static inline void c8_args_check(char quote, bool in_space, size_t z)
 {
@@ -45,7 +45,7 @@ static inline void c8_args_check(char quote, bool in_space, size_t z)
   __CPROVER_assert(!g_xerr, "lock-step: a backslash with nothing after it is the error 'incomplete escape sequence'");
   __CPROVER_assert(z == g_z0 + (ARG_ESCAPES(g_c, g_q0) ? 1 : 0), "lock-step: one character consumed, two for an escape");
   __CPROVER_assert(quote == ARG_QUOTE_NEXT(g_c, g_q0), "lock-step: quote state");
-  __CPROVER_assert(in_space == (verif_emit ? verif_space : g_sp0), "lock-step: between-arguments state");
+  __CPROVER_assert((in_space ? 1 : 0) == ((verif_emit ? verif_space : g_sp0) ? 1 : 0), "lock-step: between-arguments state");   /* a havocked _Bool may hold any byte */
   __CPROVER_assert(g_nnew == ((verif_app && g_sp0) ? 1 : 0), "lock-step: a new argument starts exactly when a character is written while between arguments");
   __CPROVER_assert(g_npush == (verif_app ? 1 : 0), "lock-step: every written character that is not a separating blank is appended (NUL included)");
   __CPROVER_assert(verif_app ==> g_pushval == ARG_CH(g_c, g_c2, g_q0), "lock-step: the appended character is c, or the escaped character after a backslash");
